@@ -12,61 +12,9 @@ From Coq Require Import List NArith ZArith Bool.
 Import ListNotations.
 Require Import Verif.Lib.Wire Verif.Lib.Text Verif.Lib.PathNorm Verif.Lib.Utf8 Verif.Lib.Percent
                Verif.Lib.C02Expr Verif.Gen.Facts_C02.
-
-(* ------------------------------------------------------------------ trees *)
-(* A location-aware resource tree.  [None] = a resource without
-   __getitem__; [Some l] = item lookup is "first entry of l with that key",
-   absent key = KeyError.  The __name__ of a child is its key. *)
-Inductive res := Node (children : option (list (text * res))).
-
-(* identity of a resource = the child indexes leading to it from the root *)
-Definition pos := list nat.
-Definition rnode : Type := (pos * res)%type.
-
-Fixpoint assoc_idx (k : text) (l : list (text * res)) (i : nat) : option (nat * res) :=
-  match l with
-  | [] => None
-  | (n, c) :: r => if text_eqb k n then Some (i, c) else assoc_idx k r (S i)
-  end.
-
-Inductive lookup := NoGetitem | NoKey | Found (i : nat) (c : res).
-
-(* ob.__getitem__ (AttributeError) / getitem(segment) (KeyError) *)
-Definition getitem (ob : res) (seg : text) : lookup :=
-  match ob with
-  | Node None => NoGetitem
-  | Node (Some l) => match assoc_idx seg l 0 with Some (i, c) => Found i c | None => NoKey end
-  end.
-
-Definition child (ob : rnode) (seg : text) : option rnode :=
-  match getitem (snd ob) seg with Found i c => Some (fst ob ++ [i], c) | _ => None end.
-
-(* item lookup along a list of segments *)
-Fixpoint descend (ob : rnode) (segs : list text) : option rnode :=
-  match segs with
-  | [] => Some ob
-  | s :: r => match child ob s with Some n => descend n r | None => None end
-  end.
-
-(* the resource at a position *)
-Fixpoint node_at (r : res) (p : pos) : option res :=
-  match p with
-  | [] => Some r
-  | i :: p' => match r with
-               | Node (Some l) => match nth_error l i with Some (_, c) => node_at c p' | None => None end
-               | Node None => None
-               end
-  end.
-
-(* ------------------------------------------------------------ exceptions *)
-Inductive exn := URLDecodeError | UnicodeDecodeError | UnicodeEncodeError.
-Inductive result (A : Type) := Ok (a : A) | Exc (e : exn) | Unsupported.
-Arguments Ok {A}. Arguments Exc {A}. Arguments Unsupported {A}.
-
-Definition rbind {A B} (r : result A) (f : A -> result B) : result B :=
-  match r with Ok a => f a | Exc e => Exc e | Unsupported => Unsupported end.
-Notation "'rlet' x ':=' e 'in' k" := (rbind e (fun x => k))
-  (at level 200, x pattern, e at level 100, k at level 200, right associativity).
+(* trees, positions, item lookup, exceptions/result, the dictionary record and the
+   translator's primitives live in Model/C02_base.v (shared with Gen/Facts_C02.v) *)
+Require Export Verif.Model.C02_base.
 
 (* ----------------------------------------------------- decoding of paths *)
 (* path.encode('latin-1').decode('utf-8') *)
@@ -95,10 +43,6 @@ Record request := mkReq {
   q_path_info : option text;        (* environ['PATH_INFO'] (WSGI latin-1 text); None = key absent *)
   q_matchdict : option matchdict;   (* request.matchdict *)
   q_vroot : option text }.          (* environ['HTTP_X_VHM_ROOT'] *)
-
-Record tdict := mkT {
-  t_context : pos; t_view_name : text; t_subpath : list text; t_traversed : list text;
-  t_virtual_root : pos; t_virtual_root_path : list text; t_root : pos }.
 
 Definition slash_text : text := [slash].
 Definition mval_falsy (v : mval) : bool :=
@@ -187,6 +131,20 @@ Definition traverser_call_mode (m : vpath_mode) (root : rnode) (q : request) : r
     Ok (loop vpath_tuple subpath vroot_tuple vroot_idx root root root 0 vpath_tuple).
 
 Definition traverser_call := traverser_call_mode vpath_tuple_mode.
+
+(* the part of __call__ from `root = self.root` to the end, as a function of the
+   variables the preamble has computed (the reference for the regenerated
+   gen_call_tail of Gen/Facts_C02.v) *)
+Definition call_tail (m : vpath_mode) (vpath path : text) (subpath vroot_tuple : list text)
+           (vroot_idx : Z) (root : rnode) : tdict :=
+  if text_eqb vpath slash_text then
+    render (mkEnv [] subpath vroot_tuple 0%Z vroot_idx [] root root root) ret_final
+  else
+    let vpath_tuple := match m with
+                       | VJoined => split_path_info vpath
+                       | VSeparate => vroot_tuple ++ split_path_info path
+                       end in
+    loop vpath_tuple subpath vroot_tuple vroot_idx root root root 0 vpath_tuple.
 
 (* ----------------------------------------------------- traverse() *)
 Inductive api_path := PStr (t : text) | PTuple (l : list text).
